@@ -162,9 +162,43 @@ def _line_iter(src):
     return it
 
 
+IO_READLINES = ("io-model: handle.readlines() on a fresh handle returns the list of ALL lines line(f, 0..n_lines(f)-1); readlines(hint) with a positive hint "
+                "stops once the lines returned so far total at least `hint` characters: the FIRST m lines for some 0 <= m <= n_lines(f) (m >= 1 when there is a "
+                "line) - nothing says m = n_lines(f); decoding happens in the call: UnicodeDecodeError if one of the lines returned does not decode")
+
+
+def _readlines(src):
+    def readlines(eng, recv, args, kwargs):
+        if kwargs or len(args) > 1:
+            raise Unsupported("readlines() argument form")
+        hint = args[0] if args else None
+        eng.assume(NL(src) >= 0)
+        eng.assumptions.add(IO_READLINES)
+        if hint is None or (isinstance(hint, int) and not isinstance(hint, bool) and hint <= 0):
+            m = NL(src)
+        elif isinstance(hint, int) and not isinstance(hint, bool):
+            m = z3.Const(fresh_name("lines_returned"), _I)
+            eng.assume(z3.And(m >= 0, m <= NL(src), z3.Implies(NL(src) >= 1, m >= 1)))
+        else:
+            raise Unsupported("readlines(hint) with a symbolic hint")
+        # either one of the lines returned does not decode (a witness position) or every one of them does
+        k, w = z3.Int(fresh_name("rl")), z3.Const(fresh_name("undecodable_line"), _I)
+        if eng.branch(eng.sbool(z3.Const(fresh_name("some_line_undecodable"), z3.BoolSort()))):
+            eng.assume(z3.And(w >= 0, w < m, DECERR(src, w)))
+            raise ProgExc(UnicodeDecodeError, "codec can't decode")
+        eng.assume(z3.ForAll([k], z3.Implies(z3.And(k >= 0, k < m), z3.Not(DECERR(src, k))), patterns=[DECERR(src, k)]))
+
+        def seq(e, v):
+            return m, (lambda kk: LINE_WRAPPER[0](LINE(src, kk.z)))
+
+        return Opaque(z3.Const(fresh_name("lines_read"), _I), {"__iter_seq__": seq})
+
+    return readlines
+
+
 def text_handle(src, name="text_handle", extra=None):
     """a text handle delivering the lines of source `src` (z3 Int term); `.src` names the source"""
-    proto = {"__iter_seq__": _line_iter(src), "close": _close, ".closed": _closed, "__enter__": _ctx_enter, "__exit__": _ctx_exit,
+    proto = {"__iter_seq__": _line_iter(src), "readlines": _readlines(src), "close": _close, ".closed": _closed, "__enter__": _ctx_enter, "__exit__": _ctx_exit,
              "__isinstance__": (_io.TextIOBase,)}
     proto.update(extra or {})
     h = Opaque(z3.Const(fresh_name(name), _I), proto)
@@ -175,7 +209,7 @@ def text_handle(src, name="text_handle", extra=None):
 def text_stream(name="text_stream", encoding="utf-8"):
     """a caller-supplied text stream (StringIO, an open text file): an abstract line source that is its own handle"""
     z = z3.Const(fresh_name(name), _I)
-    proto = {"__iter_seq__": _line_iter(z), "close": _close, ".closed": _closed, "__enter__": _ctx_enter, "__exit__": _ctx_exit,
+    proto = {"__iter_seq__": _line_iter(z), "readlines": _readlines(z), "close": _close, ".closed": _closed, "__enter__": _ctx_enter, "__exit__": _ctx_exit,
              "__isinstance__": (_io.TextIOBase,), ".encoding": lambda eng, v: encoding}
     h = Opaque(z, proto)
     h.src = z
